@@ -81,6 +81,7 @@ pub fn read_script<R: Read>(r: &mut R, reads: &[usize], cyclic: bool, max_calls:
     let mut calls = Vec::new();
     let mut i = 0usize;
     let mut buf = vec![0u8; reads.iter().copied().max().unwrap_or(1).max(1)];
+    let mut first_err: Option<(String, String)> = None;
     loop {
         if calls.len() >= max_calls || (!cyclic && i >= reads.len()) {
             break;
@@ -97,11 +98,16 @@ pub fn read_script<R: Read>(r: &mut R, reads: &[usize], cyclic: bool, max_calls:
             }
             Err(e) => {
                 calls.push(json!({"k": k, "n": -1, "kind": kind_of(&e), "msg": e.to_string()}));
-                return (out, calls, Some((kind_of(&e), e.to_string())));
+                if first_err.is_none() {
+                    first_err = Some((kind_of(&e), e.to_string()));
+                }
+                if cyclic {
+                    return (out, calls, first_err);
+                }
             }
         }
     }
-    (out, calls, None)
+    (out, calls, first_err)
 }
 
 fn counters_json() -> Value {
